@@ -236,7 +236,7 @@ class Exec:
                 if isinstance(v, (int, str)) and not isinstance(v, bool): yield st, v; return
             yield st, BuiltinRef(base.name + "." + attr); return
         if isinstance(base, Ref):
-            obj = st.heap[base.oid]
+            obj = st.heap.setdefault(base.oid, {})
             if attr in obj: yield st, obj[attr]; return
             if attr == "__dict__": yield st, obj; return
             rc = self.contracts.get("ref:%s.%s" % (base.cls, attr))
@@ -376,6 +376,10 @@ class Exec:
             if isinstance(node.op, ast.Not):
                 t = self.truth(v); yield s, (Sym(BOOL, z3.Not(t.z)) if isinstance(t, Sym) else (not t))
             elif isinstance(node.op, ast.USub):
+                if isinstance(v, Sym) and v.ty.kind == "opt":
+                    if feasible(s.pc, sort_of(v.ty).is_none(v.z)): raise Unsupported("unary minus on a value that may be None")
+                    v = opt_payload(v)
+                if isinstance(v, Sym) and v.ty.kind == "dec": yield s, Sym(DEC, mk_dec(-dec_val(v.z), dec_fin(v.z))); continue
                 yield s, (Sym(v.ty, -v.z) if isinstance(v, Sym) else -v)
             else: raise Unsupported("unary")
 
@@ -540,6 +544,9 @@ class Exec:
             isn = sort_of(a.ty).is_none(a.z)
             if feasible(st.pc, isn): raise Unsupported("None operand feasible in binop")
             a = opt_payload(a)
+        if isinstance(b, Sym) and b.ty.kind == "opt":
+            if feasible(st.pc, sort_of(b.ty).is_none(b.z)): raise Unsupported("None operand feasible in binop")
+            b = opt_payload(b)
         la, lb = lift(a), lift(b)
         if la.ty.kind == "str" and lb.ty.kind == "str" and isinstance(op, ast.Add):
             yield st, Sym(STR, z3.Concat(la.z, lb.z)); return
